@@ -25,7 +25,7 @@ Key(seed, k) == (seed * 3 + k) % 65536
 ClIdle == [st |-> "idle"]
 Pdu(pgn, da, f) == [k |-> "pdu", pgn |-> pgn, da |-> da, f |-> f]
 ClStart(op, srv) ==
-    [c |-> [st |-> "w_first", op |-> op, data |-> <<>>, err |-> None, edcp |-> None, srv |-> srv],
+    [c |-> [st |-> "w_first", op |-> op, data |-> <<>>, err |-> None, edcp |-> None, srv |-> srv, det |-> FALSE],
      out |-> << Pdu(PGN_DM14, srv, [count |-> op.count, direct |-> op.direct, cmd |-> op.cmd, ptr |-> op.ptr, kf |-> USER_LEVEL]) >>]
 \* a DM15 from `from` is delivered to the client
 ClOnDm15(c, p, from) ==
@@ -56,6 +56,11 @@ ClResult(c) ==
       [] c.st = "nokey" -> [raises |-> TRUE, code |-> None, data |-> <<>>]
       [] c.st = "w_first" -> [raises |-> TRUE, code |-> None, data |-> <<>>]      \* time-out: no response from the server
       [] OTHER -> [raises |-> FALSE, code |-> None, data |-> <<>>]                 \* time-out later on: gives up silently
+
+\* read() / write() has returned.  After a time-out the query object stays subscribed: it goes on reacting to late
+\* answers (and so closes the transaction its caller has given up) until the next operation is started.
+ClAfterReturn(c) == IF c.st \in {"w_first", "w_dm16", "w_complete"} THEN [c EXCEPT !.det = TRUE] ELSE ClIdle
+ClFree(c) == c.st = "idle" \/ c.det
 
 (******************************* server ************************************)
 \* cfg: [sec (seed/key configured), k]
